@@ -748,6 +748,54 @@ class Program:
                 self._cfgs[key] = ("error", e)
         return self._cfgs[key]
 
+    # -- the other input forms and repeated conversion -----------------------
+    def as_callable(self):
+        """the program as a function object whose source inspect.getsource() can find"""
+        import linecache
+
+        fname = f"<s2prog-{abs(hash(self.src)):x}>"
+        linecache.cache[fname] = (len(self.src), None, self.src.splitlines(True), fname)
+        ns = {"ext": lambda *a: None, "mark": lambda k: None}
+        exec(compile(self.src, fname, "exec"), ns)
+        return ns["f"]
+
+    @staticmethod
+    def cfg_fingerprint(astcfg):
+        out = []
+        for name, b in astcfg.items():
+            out.append((str(name), tuple(ast.dump(i) for i in b.instructions), tuple(str(t) for t in b.jump_targets)))
+        return tuple(out)
+
+    def cfg_forms(self):
+        """The graph of the same function obtained through the other input forms of the public API (source string,
+        function object), each converted twice in this process.  Only conversions whose graph DIFFERS from the primary
+        one (AST list, pruned) are returned - an identical graph has an identical meaning:
+        [(label, ('ok', BlockProgram) | ('refused', exc) | ('error', exc))]"""
+        if getattr(self, "_forms", None) is None:
+            from numba_scfg.core.datastructures.ast_transforms import AST2SCFGTransformer
+
+            prim = self.cfg(True)
+            base = self.cfg_fingerprint(prim[2]) if prim[0] == "ok" else prim[0]
+            forms = []
+            try:
+                fn = self.as_callable()
+            except Exception:
+                fn = None
+            for label, arg in (("str#1", self.src), ("str#2", self.src), ("callable#1", fn), ("callable#2", fn)):
+                if arg is None:
+                    continue
+                try:
+                    astcfg = AST2SCFGTransformer(arg, prune=True).transform_to_ASTCFG()
+                    if self.cfg_fingerprint(astcfg) != base:
+                        forms.append((label, ("ok", BlockProgram(astcfg))))
+                except NotImplementedError as e:
+                    if base != "refused":
+                        forms.append((label, ("refused", e)))
+                except Exception as e:
+                    forms.append((label, ("error", e)))
+            self._forms = forms
+        return self._forms
+
     # -- full round trip (C07 / C10) -----------------------------------------
     def pipeline(self):
         """('ok', fn, funcdef_ast, scfg, text) | ('refused', exc) | ('error', stage, exc)"""
@@ -772,6 +820,45 @@ class Program:
             except Exception as e:
                 self._pipeline = ("error", stage, e)
         return self._pipeline
+
+    def pipeline_forms(self):
+        """The round trip of the same function once more through the source-string form (a second conversion in this
+        process) and twice through the function-object form.  Only results whose regenerated text DIFFERS from the primary
+        round trip are returned: [(label, ('ok', fn, text) | ('refused',) | ('error', stage, exc))]"""
+        if getattr(self, "_pforms", None) is None:
+            from numba_scfg.core.datastructures.ast_transforms import AST2SCFG, SCFG2AST
+
+            prim = self.pipeline()
+            base = prim[4] if prim[0] == "ok" else prim[0]
+            forms = []
+            try:
+                fobj = self.as_callable()
+            except Exception:
+                fobj = None
+            for label, arg in (("str#2", self.src), ("callable#1", fobj), ("callable#2", fobj)):
+                if arg is None:
+                    continue
+                stage = "AST2SCFG"
+                try:
+                    scfg = AST2SCFG(arg)
+                    stage = "restructure"
+                    scfg.restructure()
+                    stage = "SCFG2AST"
+                    out = SCFG2AST(arg, scfg)
+                    stage = "unparse"
+                    text = ast.unparse(out)
+                    if text == base:
+                        continue
+                    stage = "compile"
+                    fn = self._fn(compile(text, "<regen>", "exec"), "transformed_f")
+                    forms.append((label, ("ok", fn, text)))
+                except NotImplementedError:
+                    if base != "refused":
+                        forms.append((label, ("refused",)))
+                except Exception as e:
+                    forms.append((label, ("error", stage, e)))
+            self._pforms = forms
+        return self._pforms
 
     def run(self, fn, args, env):
         self.holder["env"] = env
